@@ -172,6 +172,8 @@ pub fn run(out: &mut Out, thorough: bool, seed: u64, _extra: &[String]) {
     let mut r = Rng::new(seed);
     scaling_cases(out, &mut r, thorough);
     { let mut r2 = Rng::new(seed ^ 0x5eed_e87e); extremes(out, &mut r2, thorough); }
+    // encryption itself against the model (`enc_op` lines, own generator: the cases below are unchanged)
+    { let mut r3 = Rng::new(seed ^ 0x0e2c_0b5e); crate::c01e::enc_ops(out, &mut r3, thorough); }
     let reps = if thorough { 120 } else { 14 };
     for rep in 0..reps {
         let lg = r.range(1, if thorough { 7 } else { 5 }) as usize; let n = 1usize << lg;
